@@ -21,15 +21,16 @@ E0 == [kinds |-> <<>>, prios |-> <<>>, tags |-> <<>>, cr |-> <<>>, mr |-> <<>>, 
 Ref(n) == [E0 EXCEPT !.refs = << n >>]
 Sub(fs) == [E0 EXCEPT !.ors = << fs >>]
 \* a clause: [txt, w]
-Cl(t, w) == [txt |-> t, w |-> w]
-Leafs(a, b, d) == { Cl(a \o " " \o b, << And2(F(a), F(b)) >>), Cl(a \o " | " \o b, << F(a), F(b) >>), Cl(a, << F(a) >>),
-                    Cl("(" \o a \o " | " \o b \o ") " \o d, << And2(Sub(<< F(a), F(b) >>), F(d)) >>) }
-WithRef(a, b, n) == { Cl(a \o " {" \o n \o "}", << And2(F(a), Ref(n)) >>), Cl("{" \o n \o "} | " \o b, << Ref(n), F(b) >>),
-                      Cl(a \o " ({" \o n \o "} | " \o b \o ")", << And2(F(a), Sub(<< Ref(n), F(b) >>)) >>) }
+\* bar: the clause's own text contains " | ";  refs: the names it mentions (their expansions may bring a " | " along)
+Cl(t, w, bar, refs) == [txt |-> t, w |-> w, bar |-> bar, refs |-> refs]
+Leafs(a, b, d) == { Cl(a \o " " \o b, << And2(F(a), F(b)) >>, FALSE, {}), Cl(a \o " | " \o b, << F(a), F(b) >>, TRUE, {}), Cl(a, << F(a) >>, FALSE, {}),
+                    Cl("(" \o a \o " | " \o b \o ") " \o d, << And2(Sub(<< F(a), F(b) >>), F(d)) >>, TRUE, {}) }
+WithRef(a, b, n) == { Cl(a \o " {" \o n \o "}", << And2(F(a), Ref(n)) >>, FALSE, {n}), Cl("{" \o n \o "} | " \o b, << Ref(n), F(b) >>, TRUE, {n}),
+                      Cl(a \o " ({" \o n \o "} | " \o b \o ")", << And2(F(a), Sub(<< Ref(n), F(b) >>)) >>, TRUE, {n}) }
 DefC == Leafs("x~", "P1", "+pj1")
 DefB == Leafs("-", "#ar1", "!+pj1") \cup WithRef("'alpha'", "@cx1", "qc")
 DefA == Leafs("o", "f=b", "due:*") \cup WithRef("!f=b", "n:>5", "qb")
-        \cup { Cl("{qb} {qc}", << And2(Ref("qb"), Ref("qc")) >>), Cl("{qb} | {qc}", << Ref("qb"), Ref("qc") >>) }
+        \cup { Cl("{qb} {qc}", << And2(Ref("qb"), Ref("qc")) >>, FALSE, {"qb", "qc"}), Cl("{qb} | {qc}", << Ref("qb"), Ref("qc") >>, TRUE, {"qb", "qc"}) }
 \* the page's first line: WHERE clause with optional S / O / G around it
 Heads == { << "W ", "" >>, << "S note W ", " O priority G file" >>, << "W ", " G file O alpha" >>, << "S count(note) W ", " G type" >> }
 Uses == { << "", "{qa}", << Ref("qa") >> >>,
@@ -40,7 +41,12 @@ Uses == { << "", "{qa}", << Ref("qa") >> >>,
           << "", "+pj1 {qc} | {qb}", << And2(F("+pj1"), Ref("qc")), Ref("qb") >> >> }
 Cases == { [files |-> [qa |-> h[1] \o a.txt \o h[2], qb |-> "W " \o b.txt \o " G none", qc |-> h[1] \o cc.txt \o h[2]],
             txt |-> "W " \o u[2],
-            exp |-> Result(U0, SubstOr(u[3], [qa |-> a.w, qb |-> b.w, qc |-> cc.w], 4))]
+            exp |-> Result(U0, SubstOr(u[3], [qa |-> a.w, qb |-> b.w, qc |-> cc.w], 4)),
+            \* what the recorded deviation (textual paste, kinds / priorities pooling) would give - for classification only
+            asbuilt |-> LET barC == cc.bar
+                            barB == b.bar \/ ("qc" \in b.refs /\ barC)
+                            barA == a.bar \/ ("qb" \in a.refs /\ barB) \/ ("qc" \in a.refs /\ barC)
+                        IN Result(U0, SubstOrB(u[3], [qa |-> a.w, qb |-> b.w, qc |-> cc.w], [qa |-> barA, qb |-> barB, qc |-> barC], 4))]
            : a \in DefA, b \in DefB, cc \in DefC, h \in Heads, u \in Uses }
 Init == c \in Cases
 Next == UNCHANGED c
